@@ -533,12 +533,15 @@ impl OsIpcReceiverSet {
 
     pub fn add(&mut self, receiver: OsIpcReceiver) -> Result<u64, UnixError> {
         let last_index = self.incrementor.next().unwrap();
-        let fd = receiver.consume_fd();
+        // Only take the descriptor out of the receiver once it is registered:
+        // if the registration fails, the receiver still owns it (and closes it).
+        let fd = receiver.fd.get();
         let fd_token = Token(fd as usize);
         let poll_entry = PollEntry { id: last_index, fd };
         self.poll
             .registry()
             .register(&mut SourceFd(&fd), fd_token, Interest::READABLE)?;
+        receiver.consume_fd();
         self.pollfds.insert(fd_token, poll_entry);
         Ok(last_index)
     }
